@@ -746,6 +746,7 @@ func bClassify(err error) string {
 type bResult struct {
 	class   string
 	pending string
+	before  string // pending batch id before the call
 	batch   *order.Batch
 }
 
@@ -753,7 +754,10 @@ type bResult struct {
 func (c *bCase) run(r *Run, s *bSession) bResult {
 	c.Env.MinNoDust = int64(order.MinNoDustAccountSize)
 	c.fillOracle()
-	res := bResult{}
+	res := bResult{before: "-"}
+	if s.mgr.HasPendingBatch() {
+		res.before = hex.EncodeToString(s.mgr.PendingBatch().ID[:])
+	}
 	if err := c.install(s); err != nil {
 		panic(fmt.Sprintf("harness: cannot install case: %v", err))
 	}
@@ -1139,8 +1143,8 @@ func runBatch(r *Run) {
 		"non-trivial = distinct proposal that reached Verify's per-order loop"
 
 	// compiled constants vs regenerated facts
-	r.Emit(r.Prop+" consts", fmt.Sprintf("pad=3 unit=%d p2wsh=%d input=%d scale=%d tapwit=%d wit=%d latest=%d",
-		int64(order.BaseSupplyUnit), input.P2WSHOutputSize, input.InputSize, blockchain.WitnessScaleFactor,
+	r.Emit(r.Prop+" consts", fmt.Sprintf("pad=%d unit=%d p2wsh=%d input=%d scale=%d tapwit=%d wit=%d latest=%d",
+		order.VerifHeightHintPadding, int64(order.BaseSupplyUnit), input.P2WSHOutputSize, input.InputSize, blockchain.WitnessScaleFactor,
 		poolscript.TaprootMultiSigWitnessSize, poolscript.MultiSigWitnessSize, uint32(order.LatestBatchVersion)))
 
 	var sess *bSession
@@ -1178,6 +1182,9 @@ func runBatch(r *Run) {
 		// pending batch must be set iff accepted
 		if res.class == "ok" && res.pending != c.Msg.ID {
 			r.Violate("accepted batch is not the pending batch", r.Prop+"/pending", c)
+		}
+		if res.class != "ok" && res.pending != res.before {
+			r.Violate("a rejected batch replaced the pending batch", r.Prop+"/pending", c)
 		}
 		if res.class != "ok" {
 			return
